@@ -424,17 +424,20 @@ where
             let run_futs = policy
                 .other_parties()
                 .map(async |p| client.run(p, run_request.clone()).await);
-            if let Err(err) = future::try_join_all(run_futs).await
-                && let Some(url) = policy.output
-            {
-                let _ = client
-                    .output(
-                        url.clone(),
-                        Err(OutputError::RequestRunError {
-                            source: Box::new(err),
-                        }),
-                    )
-                    .await;
+            if let Err(err) = future::try_join_all(run_futs).await {
+                if let Some(url) = policy.output {
+                    let _ = client
+                        .output(
+                            url.clone(),
+                            Err(OutputError::RequestRunError {
+                                source: Box::new(err),
+                            }),
+                        )
+                        .await;
+                }
+                // Without all followers running the computation can never complete. Stop the
+                // state machine (which releases the permit) also if there is no output
+                // destination to notify.
                 return ControlFlow::Break(());
             }
             debug!("followers are running");
@@ -736,17 +739,23 @@ where
                                 };
                                 client.consts(p, const_req).await
                             });
-                            if let Err(err) = future::try_join_all(const_futs).await
-                                && let Some(url) = policy_cl.output
-                            {
-                                let _ = client
-                                    .output(
-                                        url,
-                                        Err(OutputError::SendConstsError {
-                                            source: Box::new(err),
-                                        }),
-                                    )
-                                    .await;
+                            if let Err(err) = future::try_join_all(const_futs).await {
+                                if let Some(url) = policy_cl.output {
+                                    let _ = client
+                                        .output(
+                                            url,
+                                            Err(OutputError::SendConstsError {
+                                                source: Box::new(err),
+                                            }),
+                                        )
+                                        .await;
+                                }
+                                // The computation can not complete without the constants. By not
+                                // handing the client back, `internal_consts_sent` (or a cancel)
+                                // stops the state machine, which also releases the permit.
+                                drop(client_send);
+                                let _ = cmd_sender.send(PolicyCmd::InternalConstsSent).await;
+                                return;
                             }
                             // returns an error if the state machine is dropped, nothing to do
                             let _ = client_send.send(client);
